@@ -44,6 +44,37 @@ let str_item = function
   | IAlg (p, la, lb, ha, hb) ->
       "A " ^ string_of_upoly p ^ " (" ^ string_of_z la ^ "/" ^ string_of_z lb ^ "," ^ string_of_z ha ^ "/" ^ string_of_z hb ^ ")"
 
+(* ---- the SORTED faithful model (lp_roots_isolate_sorted: isolation + insertion sort over the comparison model of
+   algebraic_number.c; theorem C06_libpoly_isolation_end_to_end) against the list the library printed.
+   Equality of the intervals cannot be demanded: libc's qsort calls lp_algebraic_number_cmp (which refines both
+   operands in place) in another order than the model's insertion sort, so the two lists can differ by the amount
+   of refinement.  Demanded: same length; item by item the same kind; points equal; interval items with the SAME
+   defining polynomial and OVERLAPPING intervals whose intersection still has the sign change of that polynomial
+   (both isolate the same root of the same polynomial). *)
+let q_lt (a, b) (c, d) = riq_lt a b c d
+let q_eq (a, b) (c, d) = riq_le a b c d && riq_le c d a b
+let item_of_sorted (x : anum) : item =
+  match x.an_f with
+  | None -> IPoint (x.an_a.da, rd_pow x.an_a.dn)
+  | Some p -> IAlg (p, x.an_a.da, rd_pow x.an_a.dn, x.an_b.da, rd_pow x.an_b.dn)
+let same_root (i : int) (c : item) (mo : item) : string option =
+  match c, mo with
+  | IPoint (a, b), IPoint (a', b') ->
+      if q_eq (a, b) (a', b') then None
+      else Some (Printf.sprintf "sorted model: root %d is the point %s, C has %s" i (str_item mo) (str_item c))
+  | IAlg (p, la, lb, ha, hb), IAlg (p', la', lb', ha', hb') ->
+      if string_of_upoly (pnorm p) <> string_of_upoly (pnorm p') then
+        Some (Printf.sprintf "sorted model: root %d has polynomial %s, C has %s" i (string_of_upoly p') (string_of_upoly p))
+      else
+        let lo = if q_lt (la, lb) (la', lb') then (la', lb') else (la, lb) in
+        let hi = if q_lt (ha, hb) (ha', hb') then (ha, hb) else (ha', hb') in
+        if not (q_lt lo hi) then
+          Some (Printf.sprintf "sorted model: root %d: intervals do not overlap: model %s, C %s" i (str_item mo) (str_item c))
+        else if sgn_of_z (psgn_at_rat p (fst lo) (snd lo)) * sgn_of_z (psgn_at_rat p (fst hi) (snd hi)) >= 0 then
+          Some (Printf.sprintf "sorted model: root %d: no sign change on the intersection: model %s, C %s" i (str_item mo) (str_item c))
+        else None
+  | _, _ -> Some (Printf.sprintf "sorted model: root %d: kinds differ: model %s, C %s" i (str_item mo) (str_item c))
+
 let rec parse_itvs toks k =
   if k = 0 then [] else
   match toks with
@@ -106,7 +137,15 @@ let run (toks : string list) (cout : string list) : string =
               | Some l ->
                 if List.length l <> m then err (Printf.sprintf "number of isolated roots C=%d faithful-model=%d" m (List.length l));
                 List.iter (fun x -> let it = item_of_anum x in
-                            if not (item_wf it && item_ok f it) then err ("faithful model produced a bad item (model problem): " ^ str_item it)) l);
+                            if not (item_wf it && item_ok f it) then err ("faithful model produced a bad item (model problem): " ^ str_item it)) l;
+                (* the sorted model = lp_roots_isolate_sorted fuel f (same factor sequences, computed once) *)
+                (match an_isort fuel (List.map anum_of_ri l) with
+                 | None -> err "FUEL"
+                 | Some s ->
+                   let ms = List.map item_of_sorted s in
+                   if List.length ms <> m then err (Printf.sprintf "number of isolated roots C=%d sorted-model=%d" m (List.length ms))
+                   else List.iteri (fun i (c, mo) -> match same_root i c mo with None -> () | Some e -> err e)
+                          (List.combine items ms)));
              (* 3. interval counts: items-derived (proved, when the isolation was accepted), reference Sturm, faithful model *)
              List.iteri (fun i j ->
                let c = List.nth counts i in
